@@ -23,9 +23,9 @@
   binding store exactly what Python would have stored.
 
   `C01_transparent` — the full statement on the model: for every function of the core fragment WITHOUT bare
-  declarations (the documented exception) whose closure variables hold a value when it is called (the rewritten
-  function reads them at entry: an empty cell would fail there instead of at the first use), every capture set,
-  every host that never hands ptera's marker to
+  declarations (the documented exception) — a closure variable whose cell is still empty when the function is
+  called is left alone at entry (`hcell` only says that the function does not re-bind its closure variables: no
+  `nonlocal` in the fragment) —, every capture set, every host that never hands ptera's marker to
   the program (`HostGood`: closure of a predicate `Good` on values under all host operations), every handler
   that only observes, every input / generator script / loop bound: the REWRITTEN function ends the same way
   as the UNTOUCHED one under plain Python semantics (`hk = none`), with the same world (side effects in
@@ -60,7 +60,7 @@ theorem C01_transparent (host : Host W HS) (hh : HostSpec host) (Good : Val → 
     (cfg : Cfg) (f : FunDef) (fuel : Nat) (hf : coreF f = true) (hnd : noDeclB (bodyWithReturn f) = true)
     (st0 : St W HS)
     (hext : ∀ x ∈ (collect f).external, st0.loc x = none)
-    (hcell : ∀ x ∈ f.freevars, (collect f).assigned.contains x = false ∧ host.glob x ≠ none)
+    (hcell : ∀ x ∈ f.freevars, (collect f).assigned.contains x = false)
     (hpar : ∀ p ∈ f.params, st0.loc p.name ≠ none)
     (hgood : ∀ x v, st0.loc x = some v → Good v) (hinp : ∀ cmd ∈ st0.inp, GoodCmd Good cmd)
     (hcur : ∀ e ∈ st0.cur, Good e) (hw : WInv st0.w) :
@@ -112,7 +112,7 @@ theorem C01_uncaptured_untouched (env : Env W HS) (cfg : Cfg) (henv : env.hk = s
     the rewritten function does what the untouched one does (none of the hypotheses about hosts is left) -/
 theorem C01_transparent_generated (cfg : Cfg) (f : FunDef) (fuel : Nat) (hf : coreF f = true)
     (hnd : noDeclB (bodyWithReturn f) = true)
-    (hcell : ∀ x ∈ f.freevars, (collect f).assigned.contains x = false ∧ PyLite.hostObs.glob x ≠ none)
+    (hcell : ∀ x ∈ f.freevars, (collect f).assigned.contains x = false)
     (args : List Int) (hlen : f.params.length ≤ args.length)
     (script : List Bool) (inp : List GenCmd) (hinp : ∀ cmd ∈ inp, GoodCmd PyLite.Good cmd) :
     Transparent PyLite.hostObs cfg f fuel
@@ -206,7 +206,7 @@ def sample3 : FunDef :=
     freevars := ["K1"] }
 
 theorem C01_sample3_in_fragment : coreF sample3 = true
-    ∧ ∀ x ∈ sample3.freevars, (collect sample3).assigned.contains x = false ∧ PyLite.hostObs.glob x ≠ none := by
+    ∧ ∀ x ∈ sample3.freevars, (collect sample3).assigned.contains x = false := by
   decide +kernel
 
 /-- a test: the closure variable is shown to the handler at entry, before the parameters -/
@@ -216,5 +216,20 @@ theorem C01_sample3_runs :
     ∧ ((runInstr (ctxOf PyLite.host [⟨none, none⟩] sample3 5).envI 5
         (instrument [⟨none, none⟩] sample3) sampleState).2.hs.events.map (·.name))
       = ["#enter", "K1", "a", "b", "#value", "#exit"] := by decide +kernel
+
+/-- a closure whose cell is still empty when it is called (`NOCELL` is bound later by the enclosing function and
+    not used on this path): the read at entry fails, the failure is caught, nothing is reported for it, the call
+    goes on (finding F38: before the repair the rewritten function raised `NameError` at entry) -/
+def sample4 : FunDef :=
+  { name := "f", params := [{ name := "a", ann := none }], defaults := [], returns := none, doc := none,
+    body := [.assign [.name "b"] (.name "a"), .ret (some (.name "b"))], freevars := ["NOCELL"] }
+
+theorem C01_sample4_runs :
+    coreF sample4 = true
+    ∧ isRetInt (runInstr (ctxOf PyLite.host [⟨none, none⟩] sample4 5).envI 5
+        (instrument [⟨none, none⟩] sample4) sampleState).1 5 = true
+    ∧ ((runInstr (ctxOf PyLite.host [⟨none, none⟩] sample4 5).envI 5
+        (instrument [⟨none, none⟩] sample4) sampleState).2.hs.events.map (·.name))
+      = ["#enter", "a", "b", "#value", "#exit"] := by decide +kernel
 
 end Ptera.Props.C01
